@@ -14,7 +14,7 @@ TRUSTED = [
 
 def nontrivial(p, line):
     # an answer for a type beyond the trivial group, in a re-described cell
-    return bool(p["outcome"] == "ok" and magpipe.seg(line, "tuni") not in ("1", "2") and magpipe.seg(line, "tsteps") != "none")
+    return bool(p["outcome"] == "ok" and magpipe.seg(line, "tuni") not in ("1", "2") and magpipe.seg(line, "tsteps") != "none" and magpipe.seg(line, "tvariant") != "cant")
 
 
 def run(tier, seed):
